@@ -83,8 +83,8 @@ def run_impl(case):
         from fcapy.poset import POSet, UpperSemiLattice, LowerSemiLattice, Lattice
         classes = {'P': POSet, 'U': UpperSemiLattice, 'L': LowerSemiLattice, 'B': Lattice}
         leq_a, leq_b = comparisons(case)
-        A = classes[case.get('cls_a', 'P')](list(case['a']), leq_a, use_cache=case['cache_a'])
-        B = classes[case.get('cls_b', 'P')](list(case['b']), leq_b, use_cache=case['cache_b'])
+        A = classes[case.get('cls_a', 'P')](PL.as_iterable(case['a'], case.get('ctor_a')), leq_a, use_cache=case['cache_a'])
+        B = classes[case.get('cls_b', 'P')](PL.as_iterable(case['b'], case.get('ctor_b')), leq_b, use_cache=case['cache_b'])
         for o in case['warm_a']:
             PL.apply_op(A, o, leq_a, POSet)
         for o in case['warm_b']:
@@ -390,6 +390,8 @@ def generate(rng, tier):
         r = rng.random()               # how the comparison is handed to the two posets
         c['leq_mode'] = 'same' if r < 0.70 else ('bound' if r < 0.82 else
                                                  ('callable_eq' if r < 0.94 else 'different'))
+        for key in ('ctor_a', 'ctor_b'):          # how the element collection is handed to the constructor
+            c[key] = rng.choice(['list', 'list', 'list', 'tuple', 'gen', 'map', 'iter'])
         cases.append(c)
     for _ in range(n_rand // 5):
         c = class_case(rng)
@@ -432,6 +434,7 @@ def stats(case):
     return {'order': case.get('kind', ''), 'overlap': case.get('overlap', ''), 'op': case['op'],
             'classes': case.get('cls_a', 'P') + '/' + case.get('cls_b', 'P'),
             'comparison': case.get('leq_mode', 'same'),
+            'elements_given_as': '%s/%s' % (case.get('ctor_a', 'list'), case.get('ctor_b', 'list')),
             'cache': '%s/%s' % (case['cache_a'], case['cache_b']),
             'size_a': len(fa), 'size_b': len(fb), 'warm': min(len(w), 8),
             'warm_adds_fill': min(sum(1 for o in w if o[0] == 'add' and o[2]), 4),
